@@ -13,6 +13,7 @@ Fixpoint shift_val (k n : nat) (v : value) : value :=
     VObj cls (phi k n p) (phie k n e)
          ((fix go (l : list (list N * value)) : list (list N * value) :=
              match l with [] => [] | (a, x) :: l' => (a, shift_val k n x) :: go l' end) attrs)
+  | VRef nm p cl => VRef (shift_val k n nm) (phi k n p) cl
   | VList l => VList (map (shift_val k n) l)
   | _ => v
   end.
@@ -26,6 +27,7 @@ Fixpoint erase_val (v : value) : value :=
     VObj cls 0 0
          ((fix go (l : list (list N * value)) : list (list N * value) :=
              match l with [] => [] | (a, x) :: l' => (a, erase_val x) :: go l' end) attrs)
+  | VRef nm p cl => VRef (erase_val nm) 0 cl
   | VList l => VList (map erase_val l)
   | _ => v
   end.
